@@ -65,7 +65,15 @@ def r_disp2eig(ctx, model):
         ev.shape_of = lambda v: Tup([M, ncols])
         return ev.call_def(f, model.mods["cij.misc.evec_disp2eig"], D2E, [A, MASS], {})
 
-    got = as_sym(run(3 * NAT))
+    try:
+        got = as_sym(run(3 * NAT))
+    except RaisedV:
+        raise
+    except AnalysisError as e:
+        # a formulation the whole-matrix normal form cannot read (views, per-atom reshapes, ...): formula, guard and copy are then
+        # decided on concrete shapes only (R20.2b), which folds the same source with the stock array transfer functions
+        ctx.assume(f"R20.2: whole-matrix normal form not available for this formulation ({e.reason}); evec_disp2eig decided by R20.2b on concrete shapes")
+        return
     a1 = A * sp.sqrt(REPEAT(MASS, 3))
     wants = [a1 / sp.sqrt(DIAG(MatProd(CONJ(a1), Transposed(a1)))), a1 / sp.sqrt(DIAG(MatProd(a1, Transposed(CONJ(a1))))),
              a1 / sp.sqrt(DIAG(MatProd(a1, CONJ(Transposed(a1)))))]
@@ -82,6 +90,60 @@ def r_disp2eig(ctx, model):
     ctx.check(not (mutated_params(f) & {a_.arg for a_ in f.args.args[:2]}), "the caller's arrays are copied before the in-place products", w, expected="a fresh copy of the displacement array first",
               found=f"mutated parameters: {sorted(mutated_params(f))}", explanation="evec_disp2eig scales its argument in place: the caller's displacement "
                                                                                     "vectors are silently overwritten", key="disp2eig.copy")
+
+
+def r_disp2eig_cells(ctx, model):
+    """evec_disp2eig folded cell by cell on small concrete shapes with the stock array transfer functions (no intrinsics):
+    covers formulations the whole-matrix normal form of R20.2 cannot read (reshaped views, einsum) and the shape guard
+    on every mismatch class, including those whose total size happens to be a multiple of 3N"""
+    f = model.func(D2E)
+    w = model.where(D2E, f)
+    modref = model.mods["cij.misc.evec_disp2eig"]
+
+    def run(rows, cols, nmass):
+        a = ArrV(0, (rows, cols))
+        for i in range(rows):
+            for j in range(cols):
+                a.cells[(i, j)] = sp.Symbol(f"a{i}_{j}")
+        before = dict(a.cells)
+        mass = Tup([sp.Symbol(f"m{i}", positive=True) for i in range(nmass)], "list")
+        ev = Ev(model, {}, {}, ctx=ctx)
+        res = ev.call_def(f, modref, D2E, [a, mass], {})
+        ctx.call_sites += ev.call_sites
+        return res, a, before, mass.items
+
+    for rows, nat in ((2, 2), (3, 1), (1, 3)):
+        res, a, before, mass = run(rows, 3 * nat, nat)
+        bad = []
+        if not isinstance(res, ArrV) or res.batch or tuple(res.shape) != (rows, 3 * nat):
+            bad.append(f"returns {short(res, 80)}")
+        else:
+            for i in range(rows):
+                norm = sum(mass[k // 3] * sp.Abs(a_) ** 2 for k, a_ in ((k, sp.Symbol(f"a{i}_{k}")) for k in range(3 * nat)))
+                for j in range(3 * nat):
+                    want = sp.Symbol(f"a{i}_{j}") * sp.sqrt(mass[j // 3]) / sp.sqrt(norm)
+                    got = as_sym(res.get((i, j))).replace(sp.conjugate, lambda z: sp.Abs(z) ** 2 / z)
+                    if not is_zero(sp.simplify(got - want)):
+                        bad.append(f"[{i},{j}] = {short(res.get((i, j)), 120)}")
+        ctx.check(not bad, f"{rows} vectors of {nat} atoms: row i, column 3a+c = a[i, 3a+c] sqrt(m_a) / sqrt(sum_k |a[i, k]|^2 m_(k div 3))", w,
+                  expected="mass weighting per atom (three consecutive columns share a mass), Hermitian renormalisation per row", found="; ".join(bad[:3]) or "as required",
+                  explanation="the displacement-to-eigenvector conversion, folded cell by cell, is not mass weighting by sqrt(m) of the atom a column belongs to "
+                              "followed by renormalisation of every row", key=f"disp2eig.cells.{rows}x{3 * nat}")
+        ctx.check(dict(a.cells) == before, f"{rows} vectors of {nat} atoms: the caller's array is left as it was", w, expected="unchanged cells",
+                  found="changed cells " + str(sorted(k for k in before if a.cells.get(k) != before[k])[:4]) if dict(a.cells) != before else "unchanged",
+                  explanation="evec_disp2eig scales its argument in place: the caller's displacement vectors are silently overwritten",
+                  key=f"disp2eig.cells.copy.{rows}x{3 * nat}")
+    # every class of mismatch between the width of the matrix and 3 x (number of masses) is refused
+    for rows, cols, nat, label in ((2, 7, 2, "one column too many"), (2, 3, 2, "N instead of 3N columns"), (2, 6, 4, "total size a multiple of 3N (2 x 6, 4 masses)"),
+                                   (12, 5, 4, "transposed (12 x 5, 4 masses)"), (4, 3, 2, "4 x 3, 2 masses"), (2, 6, 1, "too few masses")):
+        try:
+            res, *_ = run(rows, cols, nat)
+            ctx.check(False, f"shape guard: {label}", w, expected="RuntimeError", found=f"returns an array of shape {tuple(res.shape)}" if isinstance(res, ArrV) else f"returns {short(res, 80)}",
+                      explanation="a displacement matrix whose width is not 3 x (number of masses) is accepted: rows are regrouped across vector boundaries or "
+                                  "weighted with the wrong masses without any error", key=f"disp2eig.cells.guard.{rows}x{cols}.{nat}")
+        except RaisedV as e:
+            ctx.check(e.exc_name == "RuntimeError", f"shape guard: {label}", w, expected="RuntimeError", found=e.exc_name,
+                      explanation="a dimension mismatch surfaces as an exception other than the documented RuntimeError", key=f"disp2eig.cells.guard.{rows}x{cols}.{nat}")
 
 
 def r_sort(ctx, model):
@@ -410,6 +472,7 @@ def r_load(ctx, model):
 
 RULES = [
     ("R20.2", "evec_disp2eig: normal form, shape guard, copy before in-place products", r_disp2eig),
+    ("R20.2b", "evec_disp2eig folded cell by cell on concrete shapes: formula, caller's array untouched, every mismatch class refused", r_disp2eig_cells),
     ("R20.1", "evec_sort: dimension guard, Hermitian overlap with base rows, greedy loop with row+column elimination and placement", r_sort),
     ("R20.3", "matdyn reader folded on reference lines of the documented layout", r_load),
 ]
